@@ -156,6 +156,7 @@ func VH_C18_streamserve_isolation() {
 	}
 	panicOn := verifChoice("panic-on", 4)
 	handled := 0
+	waitsForCtx := verifFlag("a-handler-waits-for-its-context")
 	var hmu sync.Mutex
 	handledBy := map[transportStreamConn]int{}
 	release := make(chan struct{})
@@ -165,6 +166,9 @@ func VH_C18_streamserve_isolation() {
 		hmu.Unlock()
 		if c == transportStreamConn(conns[2]) {
 			<-release // a slow handler: StreamServe must wait for it
+		}
+		if waitsForCtx && c == transportStreamConn(conns[1]) {
+			<-ctx.Done() // (say, a dial that is still pending): released when serving stops
 		}
 		hmu.Lock()
 		handled++
@@ -188,7 +192,7 @@ func VH_C18_streamserve_isolation() {
 		verifAssert("C18.serve.every-conn-closed", c.closed == 1)
 		// each accepted connection is handed to exactly one handler (connections queued behind
 		// each other are not mixed up)
-		verifAssert("C18.serve.every-conn-handled-once|C15.serve.every-conn-handled-once", handledBy[transportStreamConn(c)] == 1)
+		verifAssert("C18.serve.every-conn-handled-once|C15.serve.every-conn-handled-once|C06.serve.every-conn-handled-once", handledBy[transportStreamConn(c)] == 1)
 	}
 	verifAssert("C18.serve.nothing-left", verifBlockedIn("StreamServe") == 0)
 	verifReach("C18.serve.with-panic", panicOn < 3)
